@@ -1285,15 +1285,19 @@ def _parse_header(line: str) -> tuple[str, dict[str, str]]:
     decoded_params.pop(0)  # get rid of the dummy again
     pdict = {}
     for name, decoded_value in decoded_params:
+        if isinstance(decoded_value, tuple):
+            # decode_params re-quotes RFC 2231 values; collapse_rfc2231_value
+            # only unquotes plain strings, so undo the quoting here (this is
+            # what email.message.Message.get_param does).
+            charset, language, text = decoded_value
+            decoded_value = (charset, language, email.utils.unquote(text))
         try:
             value = email.utils.collapse_rfc2231_value(decoded_value)
         except ValueError:
             # The charset is not even a possible codec name (NUL,
             # unencodable characters); collapse_rfc2231_value only
             # expects LookupError.
-            value = email.utils.unquote(decoded_value[2])
-        if len(value) >= 2 and value[0] == '"' and value[-1] == '"':
-            value = value[1:-1]
+            value = decoded_value[2]
         pdict[name] = value
     return key, pdict
 
